@@ -239,7 +239,7 @@ func runCheck(args []string) int {
 	nviol := r.confirm(nat)
 
 	wall := time.Since(t0).Seconds()
-	r.writeEvidence(wall, validated, mismatches, nviol, broken)
+	r.writeEvidence(wall, validated, mismatches, nviol, broken, inconclusive)
 
 	for k, n := range r.matched {
 		fmt.Printf("KNOWN-FINDING: property=%s key=%s %s (matched on %d paths, e.g. %s)\n", id, k, knownText(id, k), n, r.matchedSample[k])
@@ -750,6 +750,26 @@ func (n *native) run(pkg string, rj replayJSON, file string, timeout time.Durati
 	return res
 }
 
+// natConfirms: the native run reproduces THIS candidate - a predicted panic / hang must crash, panic or
+// time out natively; a predicted assertion failure must fail the same assertion natively (or crash, or
+// trip the race detector).  A native failure of some other assertion (e.g. one that belongs to a known
+// finding) confirms nothing.
+func natConfirms(res natResult, kind, label string) bool {
+	o := res.outcome
+	if o == "timeout" || o == "crash" || o == "race" || strings.HasPrefix(o, "panic") {
+		return true
+	}
+	if o != "fail" || kind == "panic" || kind == "hang" {
+		return false
+	}
+	for _, f := range res.fails {
+		if strings.Contains(f, " "+label+" ") || strings.HasSuffix(f, " "+label) {
+			return true
+		}
+	}
+	return false
+}
+
 func natFailed(o string) bool {
 	return o == "fail" || o == "timeout" || o == "crash" || o == "race" || strings.HasPrefix(o, "panic")
 }
@@ -811,7 +831,7 @@ func (r *runner) confirm(n *native) int {
 		base.Check, base.Label, base.Kind, base.Pos, base.Detail, base.Trail = r.chk.ID, v.V.Label, v.V.Kind, v.V.Pos, v.V.Detail, v.V.Trail
 		try := func(rj replayJSON) bool {
 			res := n.run(h.Pkg, rj, "", 120*time.Second)
-			return natFailed(res.outcome)
+			return natConfirms(res, v.V.Kind, v.V.Label)
 		}
 		ok := try(base)
 		final := base
@@ -891,7 +911,7 @@ func replayCmd(id, file string) int {
 
 /* ---------------- evidence ---------------- */
 
-func (r *runner) writeEvidence(wall float64, validated, mismatches, nviol int, broken []string) {
+func (r *runner) writeEvidence(wall float64, validated, mismatches, nviol int, broken, inconclusive []string) {
 	paths, obl, dis, syn, aborted := 0, 0, 0, 0, 0
 	var steps int64
 	var samples []interface{}
@@ -960,12 +980,13 @@ func (r *runner) writeEvidence(wall float64, validated, mismatches, nviol int, b
 		"solver_unknown":                r.sstats.Unknown,
 		"solver_fallbacks":              r.sstats.Fallbacks,
 		"solver_time_s":                 r.sstats.Time.Seconds(),
-		"solver_versions":               "z3 4.8.12 (primary, persistent -in, push/pop; nlsat pipeline for non-linear queries); z3 5.1.0 / 4.8.12 one-shot fallback on unknown",
+		"solver_versions":               "z3 4.8.12 (primary, persistent -in, push/pop; nlsat pipeline for non-linear queries); z3 5.1.0 / 4.8.12 one-shot fallback on unknown; bit-precise (FP) harnesses: one fresh process per query, cvc5 1.0 first, then z3 4.8.12 / 5.1.0",
 		"cross_checked_with_z3_5.1.0":   r.xchecked,
 		"cross_check_disagreements":     r.xdisagree,
 		"violations_detail":             vl,
 		"budget_exhausted":              r.timedOut,
 		"broken":                        broken,
+		"inconclusive_harnesses":        inconclusive,
 		"explanation":                   explanationOf(r.chk),
 		"exhaustive":                    false,
 	}
